@@ -209,6 +209,40 @@ def oracle_history(ck, n_ops, n_threads):
         ck.oracle['samples'].append({'history_len': n_ops, 'threads': n_threads, 'first_ops': [(P[c][0], s, str(d), g) for c, s, d, g in history[:4]]})
 
 
+def oracle_dtype_history(ck):
+    """one instance, calls with another dtype in between (which the library may reject): the later
+    result must equal that of a fresh instance"""
+    from pytorch_wavelets import DWTForward, DWTInverse, DWT1DForward, DTCWTForward, ScatLayer
+    old = torch.get_default_dtype()
+    for build_dt in (torch.float64, torch.float32):
+        for name, ctor, shape in [('DWTForward(db3,symmetric,2)', lambda: DWTForward(J=2, wave='db3', mode='symmetric'), (1, 2, 16, 12)),
+                                  ('DWT1DForward(db2,zero,2)', lambda: DWT1DForward(J=2, wave='db2', mode='zero'), (1, 2, 19)),
+                                  ('DTCWTForward(J=2)', lambda: DTCWTForward(J=2), (1, 1, 12, 12)),
+                                  ('ScatLayer', lambda: ScatLayer(), (1, 1, 8, 8))]:
+            try:
+                torch.set_default_dtype(build_dt)
+                mod = ctor(); fresh = ctor()
+            finally:
+                torch.set_default_dtype(old)
+            other = torch.float32 if build_dt == torch.float64 else torch.float64
+            x = torch.tensor(np.random.default_rng(7).standard_normal(shape), dtype=build_dt)
+            with torch.no_grad():
+                try:
+                    mod(x.to(other))            # may legitimately raise (dtype mismatch); its effect on later calls is what matters
+                except Exception:
+                    pass
+                try:
+                    a = flat_out(mod(x)); b = flat_out(fresh(x))
+                except Exception as e:
+                    ck.fail('%s built in %s: a call in the module dtype raises %s after a call with %s' % (name, build_dt, type(e).__name__, other),
+                            {'oracle': 'dtype-history', 'module': name}); continue
+            ok = len(a) == len(b) and all((u is None and v is None) or (u is not None and v is not None and u.dtype == v.dtype and torch.equal(u, v)) for u, v in zip(a, b))
+            if ok:
+                ck.oracle_ok(('dtype-history', name, str(build_dt)), group='dtype-history', sample={'module': name, 'built': str(build_dt), 'intervening_call': str(other)})
+            else:
+                ck.fail('%s built in %s: the result after an intervening %s call differs from a fresh instance' % (name, build_dt, other), {'oracle': 'dtype-history', 'module': name})
+
+
 def oracle_pyramid_inputs(ck):
     """inverse modules must not modify the coefficient lists / tensors passed to them"""
     from pytorch_wavelets import DWTInverse, DWT1DInverse, DTCWTInverse, DWTForward, DWT1DForward, DTCWTForward
@@ -249,6 +283,7 @@ def run(ck):
         for nt in ([1, 4] if q else [1, 2, 4, 8]):
             rt.guard(ck, oracle_history, ck, 60 if q else 600, nt)
         rt.guard(ck, oracle_pyramid_inputs, ck)
+        rt.guard(ck, oracle_dtype_history, ck)
         if ((ck.lean is not None and not ck.lean.ok) or st.mismatches) and not ck.failures:
             for nt in (1, 2, 8):
                 rt.guard(ck, oracle_history, ck, 200, nt)
